@@ -3054,6 +3054,56 @@ def materialise_factories(db):
     return made
 
 
+def self_partialmethod(db, m, v, funcs):
+    """FunctionDef for `partialmethod(f, *bound, **kwbound)` with f a plain
+    module-level function: def _(self, <rest>): return f(self, *bound,
+    <rest>, **kwbound); None when the call is not of that form."""
+    try:
+        ent = db.resolve_dotted(m, v.func) if isinstance(
+            v.func, (ast.Name, ast.Attribute)) else None
+    except AnalysisError:
+        return None
+    if getattr(ent, 'dotted', None) != 'functools.partialmethod' or \
+            not v.args or not isinstance(v.args[0], ast.Name) or \
+            v.args[0].id not in funcs or any(
+                isinstance(a, ast.Starred) for a in v.args) or any(
+                    k.arg is None for k in v.keywords):
+        return None
+    f = funcs[v.args[0].id]
+    a = f.args
+    if a.vararg or a.kwarg or a.posonlyargs or a.kwonlyargs:
+        return None
+    params = [x.arg for x in a.args]
+    bound = list(v.args[1:])
+    kwb = {k.arg: k.value for k in v.keywords}
+    if len(bound) + 1 > len(params) or any(k not in params for k in kwb):
+        return None
+    rest = [p_ for p_ in params[1 + len(bound):] if p_ not in kwb]
+    defaults = dict(zip(params[len(params) - len(a.defaults):], a.defaults))
+    # remaining parameters keep their defaults (trailing ones only)
+    rest_defaults = []
+    for p_ in rest:
+        if p_ in defaults:
+            rest_defaults.append(copy.deepcopy(defaults[p_]))
+        elif rest_defaults:
+            return None
+    call = ast.Call(
+        func=ast.Name(id=f.name, ctx=ast.Load()),
+        args=[ast.Name(id=params[0], ctx=ast.Load())] + [
+            copy.deepcopy(b) for b in bound] + [
+            ast.Name(id=p_, ctx=ast.Load()) for p_ in rest],
+        keywords=[ast.keyword(arg=k, value=copy.deepcopy(x))
+                  for k, x in kwb.items()])
+    return ast.FunctionDef(
+        name='_', args=ast.arguments(
+            posonlyargs=[], args=[ast.arg(arg=params[0])] + [
+                ast.arg(arg=p_) for p_ in rest], vararg=None,
+            kwonlyargs=[], kw_defaults=[], kwarg=None,
+            defaults=rest_defaults),
+        body=[ast.Return(value=call)], decorator_list=[], returns=None,
+        type_comment=None, type_params=[])
+
+
 def materialise_aliases(db):
     """N20.  `name = staticmethod(f)` / `classmethod(f)` / `name = f` in a
     class body, f a module-level function of the same module defined once
@@ -3094,6 +3144,24 @@ def materialise_aliases(db):
                             'staticmethod', 'classmethod') and \
                         len(v.args) == 1 and not v.keywords:
                     wrap, v = v.func.id, v.args[0]
+                pm = self_partialmethod(db, m, v, funcs) if isinstance(
+                    v, ast.Call) and wrap is None else None
+                if pm is not None:
+                    # name = partialmethod(f, a, k=b): a method that calls
+                    # f(self, a, <its remaining parameters>, k=b)
+                    if any(isinstance(b, ast.FunctionDef) and
+                           b.name == st.targets[0].id for b in cls.body):
+                        continue
+                    pm.name = st.targets[0].id
+                    ast.copy_location(pm, st)
+                    for x in ast.walk(pm):
+                        if isinstance(x, (ast.stmt, ast.expr, ast.arg)) and \
+                                not hasattr(x, 'lineno'):
+                            ast.copy_location(x, st)
+                    ast.fix_missing_locations(pm)
+                    cls.body[i] = pm
+                    made.append('%s:%s.%s' % (m.name, cls.name, pm.name))
+                    continue
                 if not (isinstance(v, ast.Name) and v.id in funcs):
                     continue
                 if any(isinstance(b, ast.FunctionDef) and
